@@ -88,8 +88,15 @@ def drive_session(ctx, tier, n_cases=None):
                 elif op == 'sort':
                     S.apply_params(a, *S.sort_params(a))
                     r = None
+                elif rnd.random() < 0.5:
+                    r = a.replace(sources=dict(a.sources))
                 else:
-                    r = a.replace(sources=dict(a.sources)) if rnd.random() < 0.5 else None
+                    # a signature derived by dropping the first parameter: replace() keeps the parent's provenance
+                    # map (shared, now with a key that names no parameter of this signature)
+                    ps = list(a.parameters.values())
+                    r = a.replace(parameters=ps[1:]) if ps else None
+                    if r is not None:
+                        live[rnd.randrange(len(live))] = r
             except Exception:
                 r = None        # outcomes, other exception types included, are the monitors' business
             ctx.count('driver.session_steps')
